@@ -42,6 +42,7 @@ fn gen_run(rng: &mut Rng, sub: &str, thorough: bool, base: Option<&Params>) -> (
         min_len: 0,
         dup_pct: 10,
             tab_desc_pct: 0,
+            dup_id_pct: 0,
     };
     let records = g.gen(rng);
     let container = gen_container(rng, &records, false, true);
@@ -124,6 +125,7 @@ fn run_sub(
                 memory: pu64(p, "memory") as usize,
                 norm: pbool(p, "norm"),
                 stdin: false,
+                order: 0,
             };
             let (r, ro) = run_cgr(in_dir, stem, records, container, &cfg, sched, io, abort_at, steps, &loc.join("result"));
             out.absorb(&r, main);
